@@ -315,7 +315,7 @@ def client_fn_call(spec: Any, data: Any, opts: dict, ctx: dict, drop: Any) -> An
     const = ctx["const"]  # noqa: F841
     myfun = ctx["myfun"]  # noqa: F841
     flaky = ctx["flaky"]  # noqa: F841
-    usr_center, usr_sq, usr_offset, knots, vec = ctx["usr_center"], ctx["usr_sq"], ctx["usr_offset"], ctx["knots"], ctx["vec"]  # noqa: F841
+    usr_center, usr_sq, usr_offset, knots, vec, ft = ctx["usr_center"], ctx["usr_sq"], ctx["usr_offset"], ctx["knots"], ctx["vec"], ctx["ft"]  # noqa: F841
     if "center" in ctx:
         center = ctx["center"]  # noqa: F841
     if "scale" in ctx:
